@@ -41,6 +41,10 @@ def special_docs():
                 'TYPE @t\n{\n' + ",\n".join('  "k%d": "x" // {enum: @e%d}' % (i, i) for i in range(5)) + '\n}\nGET /x\n  200 @t\n'))
     res.append(("many_bases", 'JSIGHT 0.3\n' + "".join('TYPE @b%d\n{\n  "p%d": 1\n}\n' % (i, i) for i in range(5)) +
                 'TYPE @d\n{ // {allOf: ["@b0", "@b1", "@b2", "@b3", "@b4"]}\n  "own": 1\n}\nGET /x\n  200 @d\n'))
+    res.append(("enum_macros", 'JSIGHT 0.3\n' + "".join('MACRO @m%d\n(\n  ENUM @e%d\n  [\n    "x"\n  ]\n)\n' % (i, i) for i in range(6)) +
+                "".join("PASTE @m%d\n" % i for i in range(6)) + 'GET /x\n  200 any\n'))
+    res.append(("type_macros", 'JSIGHT 0.3\n' + "".join('MACRO @m%d\n(\n  TYPE @t%d any\n  SERVER @s%d\n    BaseUrl "u"\n)\n' % (i, i, i) for i in range(5)) +
+                "".join("PASTE @m%d\n" % i for i in range(5))))
     res.append(("or_types", 'JSIGHT 0.3\nTYPE @a\n{\n  "x": @b | @c | @d\n}\nTYPE @b\n1\nTYPE @c\n"s"\nTYPE @d\ntrue\nGET /x\n  200 @a\n'))
     return res
 
